@@ -42,7 +42,7 @@ def c13(tier, seed):
     n = budget(tier, 25)
     leaf_tags = ['clade_name', 'taxonomy_scientific_name', 'taxonomy_code']
     for k in range(n):
-        D = std_dataset(ex.rng, naming='own', maxleaves=ex.rng.choice([3, 4, 5, 6, 8]))
+        D = std_dataset(ex.rng, naming='own', maxleaves=ex.rng.choice([3, 4, 5, 6, 8]), no_unary=True)   # synthesised names need arity >= 2
         cid = 'C13-%d' % k
         ex.note_dataset(D)
         if ex.rng.random() < 0.4:
